@@ -9,6 +9,7 @@ use std::sync::Arc;
 use symx_int::{note, oblige, observe, Cond, CostLike};
 
 pub trait Dd: DecisionDiagram<State = St> + Default {
+    const POOLED: bool = false;
     fn viz(&self, cfg: &VizConfig) -> String;
 }
 impl Dd for Mdd<St, { LAST_EXACT_LAYER }> {
@@ -22,6 +23,7 @@ impl Dd for Mdd<St, { FRONTIER }> {
     }
 }
 impl Dd for Pooled<St> {
+    const POOLED: bool = true;
     fn viz(&self, cfg: &VizConfig) -> String {
         self.as_graphviz(cfg)
     }
@@ -95,6 +97,7 @@ pub fn want(c: &DdCase, p: &str) -> bool {
 
 pub fn body<D: Dd>(c: &DdCase) {
     let t = Table::new(&c.shape, c.rub.clone(), true);
+    t.mon.lock().unwrap().expect_impacted = D::POOLED;
     let roots = reachable_roots(&t);
     let rs = roots[c.root % roots.len()].clone();
     let (l0, m0) = (rs.layer, rs.mask);
